@@ -724,7 +724,9 @@ func (v *FnVC) wf(t Term, depth int) string {
 		if u.Info()&types.IsString != 0 {
 			return v.strWF(t.S)
 		}
-	case *types.Pointer, *types.Map, *types.Chan, *types.Signature:
+	case *types.Pointer:
+		return "true" // 0 = nil, positive = objects, negative = interior addresses (fields, elements, locals)
+	case *types.Map, *types.Chan, *types.Signature:
 		return fmt.Sprintf("(>= %s 0)", t.S)
 	case *types.Interface:
 		return fmt.Sprintf("(and (>= (itag %s) 0) (=> (= (itag %s) 0) (= (ival %s) 0)))", t.S, t.S, t.S)
@@ -739,6 +741,9 @@ func (v *FnVC) wf(t Term, depth int) string {
 		for i := 0; i < u.NumFields(); i++ {
 			f := u.Field(i)
 			ft := Term{S: fmt.Sprintf("(%s__%s %s)", so, fieldAcc(u, i), t.S), Sort: v.S.SortOf(f.Type()), T: f.Type()}
+			if _, isPtr := f.Type().Underlying().(*types.Pointer); isPtr {
+				continue // a pointer field of a struct value may hold an interior address (negative in the encoding)
+			}
 			w := v.wf(ft, depth-1)
 			if w != "true" {
 				parts = append(parts, w)
